@@ -23,7 +23,10 @@ open Glom.C20
     anything is stored); the *only* writes to module- or class-level state inside any
     function of glom's core, matching, mutation, grouping, reduction and streaming modules
     are `Path._CACHE` and `Path._STAR_WARNED`, and no function has a mutable default argument
-    (an object shared by all calls); `glom()` derives the scope of a call from
+    (an object shared by all calls); among the objects calls share — module-level singletons and
+    spec objects (classes with `glomit`) — only the registry's methods write `self`; `arg_val`
+    builds its `_ArgValuator` per call and `bbrepr`'s recursion guard is reprlib's (per thread);
+    `glom()` derives the scope of a call from
     `_DEFAULT_SCOPE.new_child` with a dict literal whose containers are fresh (`[]`,
     `ScopeVars({}, {})`), `_glom` gives every evaluation step a fresh child dict with a
     fresh `CHILD_ERRORS` list; the registry methods on the evaluation path write only
